@@ -46,4 +46,10 @@ for name in sorted(os.listdir(SEEDED)):
     json.dump(meta, open(mp, "w"), indent=1)
     rows.append((name, ", ".join(detected) or "NOT DETECTED", meta.get("summary", "")[:100]))
     print(name, "->", ", ".join(detected) or "NOT DETECTED", flush=True)
-json.dump(rows, open(os.path.join(ROOT, "seeded", "SWEEP.json"), "w"), indent=1)
+sp = os.path.join(ROOT, "seeded", "SWEEP.json")
+old = {}
+if only and os.path.exists(sp):
+    old = {r[0]: r for r in json.load(open(sp))}
+for r in rows:
+    old[r[0]] = list(r)
+json.dump([old[k] for k in sorted(old)], open(sp, "w"), indent=1)
